@@ -9,10 +9,12 @@ import cfgh
 
 ASSUME = [
     "SimTor applies SETCONF exactly as the model's Tor store does (options named are replaced as a whole, an empty value clears, "
-    "rejection leaves the store unchanged) and provides config/defaults; it does not echo our own SETCONF as a CONF_CHANGED event",
+    "rejection leaves the store unchanged) and provides config/defaults; like Tor it announces (CONF_CHANGED) every option whose value "
+    "a SETCONF changed - ours or another controller's - in the order the changes were applied; an announcement reaches us at any later "
+    "step (Deliver); one SETCONF gives one event naming every option it changed",
     "values are abstract tokens mapped per trace to concrete options of each declared type (String, Boolean, Float, Integer, "
     "Boolean+Auto, LineList x2, a *Port list); the harness checks the Python type of what reads return",
-    "CONF_CHANGED events do not arrive while a save awaits its reply, and save() is not re-entered while a save awaits its reply; "
+    "save() is not re-entered while a save awaits its reply; "
     "in-place edits of an option whose pending value is another object (an assignment, or an edit overtaken by a change event) "
     "and change events for options with pending local changes are part of the exploration",
     "the order of different options inside one SETCONF is not compared, the order of one option's values is",
@@ -37,47 +39,62 @@ def edits_of(l, elems, maxlen, rng):
 
 
 def rand_script(rng, n, events):
+    """a random walk over the as-is Config model (kept in step here only to produce legal stimulus: which
+    announcements Tor has queued, what an in-place edit starts from); the oracle is ConfigTrace.tla"""
     elems = ["x", "y", "z"]
-    store = dict(s1=rng.choice([[], ["a"], ["b"]]), s2=rng.choice([[], ["a"], ["b"]]),
-                 l1=[rng.choice(elems) for _ in range(rng.randint(0, 3))], l2=[rng.choice(elems) for _ in range(rng.randint(0, 2))])
-    view = dict((k, list(v)) for k, v in store.items())
+    tor = dict(s1=rng.choice([[], ["a"], ["b"]]), s2=rng.choice([[], ["a"], ["b"]]),
+               l1=[rng.choice(elems) for _ in range(rng.randint(0, 3))], l2=[rng.choice(elems) for _ in range(rng.randint(0, 2))])
+    view = dict((k, list(v)) for k, v in tor.items())
     for k in ("l1", "l2"):
         if not view[k]:
             view[k] = ["d1"]
-    script = [dict(a="Attach", store=store)]
-    pend, shared, busy, dirty = [], {}, False, set()
-    pval = {}
+    script = [dict(a="Attach", store=dict((k, list(v)) for k, v in tor.items()))]
+    pend, pval, busy, inflight, evq = [], {}, False, [], []
+
+    def touch(o, v):
+        if o not in pend:
+            pend.append(o)
+        pval[o] = list(v)
+
     while len(script) < n:
         r = rng.random()
-        if busy and r < 0.35:
+        if evq and r < 0.25:
+            chs = evq.pop(0)
+            script.append(dict(a="Deliver", chs=[dict(o=o, v=list(v)) for o, v in chs]))
+            for o, vals in chs:
+                if o.startswith("l"):
+                    view[o] = list(vals) if vals else ["d1"]
+            continue
+        if busy and r < 0.45:
             if rng.random() < 0.75:
                 script.append(dict(a="SaveAck"))
-                pend, dirty = [], set(x for x in dirty if x in after)     # as-is pend is cleared; dirty keeps in-flight edits
+                seen, changed = [], []
+                for o, _ in inflight:
+                    if o in seen:
+                        continue
+                    seen.append(o)
+                    new = [v for k, v in inflight if k == o]
+                    if new != tor[o]:
+                        changed.append((o, new))
+                    tor[o] = new
+                if changed:
+                    evq.append(changed)
+                del pend[:]                      # as-is: the whole pending set is dropped
             else:
                 script.append(dict(a="SaveReject"))
             busy = False
             continue
-        if r < 0.30:
+        if r < 0.55:
             o = rng.choice(["s1", "s2"])
-            script.append(dict(a="Assign", o=o, v=[rng.choice(["a", "b"])]))
-            if o not in pend:
-                pend.append(o)
-            shared[o] = False
-            dirty.add(o)
-            if busy:
-                after.add(o)
-        elif r < 0.40:
+            v = [rng.choice(["a", "b"])]
+            script.append(dict(a="Assign", o=o, v=v))
+            touch(o, v)
+        elif r < 0.62:
             o = rng.choice(["l1", "l2"])
             v = [rng.choice(elems) for _ in range(rng.randint(0, 3))]
             script.append(dict(a="Assign", o=o, v=v))
-            pval[o] = v
-            if o not in pend:
-                pend.append(o)
-            shared[o] = False
-            dirty.add(o)
-            if busy:
-                after.add(o)
-        elif r < 0.70:
+            touch(o, v)
+        elif r < 0.80:
             o = rng.choice(["l1", "l2"])
             cands = edits_of(view[o], elems, 4, rng)
             if not cands:
@@ -85,38 +102,37 @@ def rand_script(rng, n, events):
             nv = rng.choice(cands)
             script.append(dict(a="ListOp", o=o, old=list(view[o]), v=nv))
             view[o] = nv
-            pval[o] = nv
-            if o not in pend:
-                pend.append(o)
-            shared[o] = True
-            dirty.add(o)
-            if busy:
-                after.add(o)
-        elif r < 0.85 and not busy:
+            touch(o, nv)
+        elif r < 0.92 and not busy:
             script.append(dict(a="SaveSend"))
             if pend:
                 busy = True
-                after = set()
+                inflight = []
                 for o in pend:
-                    if o in pval and o.startswith("l"):
+                    for x in pval[o]:
+                        if x != "DEFAULT":
+                            inflight.append((o, x))
+                    if o.startswith("l"):
                         view[o] = list(pval[o])
-        elif events and not busy:
-            o = rng.choice(["s1", "s2", "l1", "l2"])
-            shared[o] = False
-            if o.startswith("s"):
-                v = rng.choice([[], ["a"], ["b"]])
-            else:
-                v = [rng.choice(elems) for _ in range(rng.randint(0, 3))]
-                view[o] = list(v) if v else ["DEFAULT"]
-            script.append(dict(a="ConfChanged", o=o, v=v))
+        elif events:
+            chs = []
+            for o in rng.sample(["s1", "s2", "l1", "l2"], rng.choice([1, 1, 2])):
+                if o.startswith("s"):
+                    v = rng.choice([[], ["a"], ["b"]])
+                else:
+                    v = [rng.choice(elems) for _ in range(rng.randint(0, 3))]
+                if v != tor[o]:
+                    chs.append((o, v))
+            if not chs:
+                continue
+            for o, v in chs:
+                tor[o] = list(v)
+            evq.append(chs)
+            script.append(dict(a="OtherChange", chs=[dict(o=o, v=list(v)) for o, v in chs]))
     return script
 
 
-after = set()
-
-
 def run(pid, tier, seed):
-    global after
     rep = common.Report(pid, tier, seed)
     rep.assumptions = list(ASSUME)
     pipeline.design_check(rep, "Config_MC",
@@ -128,22 +144,22 @@ def run(pid, tier, seed):
     sims = pipeline.generate(rep, "Config_Gen", "Config_Gen_%s.cfg" % pid, 300 if tier == "quick" else 3000, 30, seed)
     scripts = list(sims)
     for _ in range(300 if tier == "quick" else 4000):
-        after = set()
         scripts.append(rand_script(rng, rng.choice([12, 25, 50]) if tier == "quick" else rng.choice([25, 60, 150]), events=(pid == "C11")))
     traces, seen = [], set()
     for i, s in enumerate(scripts):
         pick = dict(s1=i % 3, s2=(i // 3) % 2, l1=(i // 6) % 2, l2=0, offline=(i % 4 == 3))
         traces.append(cfgh.replay(s, pick))
         acts = [e["a"] for e in s]
-        if ("SaveSend" in acts and ("ListOp" in acts or "Assign" in acts)) if pid == "C10" else ("ConfChanged" in acts):
+        if ("SaveSend" in acts and ("ListOp" in acts or "Assign" in acts)) if pid == "C10" else ("Deliver" in acts):
             seen.add(common.digest(s))
     rep.cov["evaluations"] = len(traces)
     rep.cov["distinct_nontrivial"] = len(seen)
     rep.cov["rule"] = ("scripts (attach to an initial store with unset / one / many values, assignments, the six in-place list operations, "
                        "save sent / acknowledged / rejected with edits in between%s): TLC -simulate behaviours of Config_Gen_%s plus seeded "
                        "random scripts rich in in-place edits, each replayed with a rotation of concrete option types; distinct by hash; "
-                       "non-trivial = %s" % (", CONF_CHANGED events with 0/1/many values" if pid == "C11" else "", pid,
-                                             "an edit followed by a save" if pid == "C10" else "at least one CONF_CHANGED event"))
+                       "non-trivial = %s" % ("; Tor's CONF_CHANGED announcements of our own saves" + (" and of other controllers' changes with 0/1/many values" if pid == "C11" else "")
+                                + ", delivered at any later point", pid,
+                                             "an edit followed by a save" if pid == "C10" else "at least one CONF_CHANGED event delivered"))
     allknown = dict((f["id"], f) for f in common.known_findings().get("open", []))
     mine = set(f["id"] for f in common.open_findings(pid))
 
